@@ -19,10 +19,11 @@ LEVEL = "model_checking"
 ENGINE = "E2-bfs"
 TECHNIQUE = "explicit-state BFS over set-driver / set_prms / compute / read-table histories on live stock objects, differential oracle against a freshly built object"
 RULE = (
-    "BFS over histories of the alphabet {driver := version 0..2 (positive; with exact zeros where version 0 is "
-    "non-zero; impulse), set_prms := one of 4 scalar versions (each parameter changed alone and both) or a "
-    "per-label FlodymArray version, compute, read sf, read pdf} for every (stock class/solver incl. the flow-driven "
-    "stock) x (lifetime class) x (unit and uneven time grid), from the blank state (nothing set) and the ready "
+    "BFS over histories of the alphabet {driver := version 0..3 (positive; with exact zeros where version 0 is "
+    "non-zero; impulse; version 0 changed by a relative 2^-24), set_prms := one of 4 scalar versions (each parameter "
+    "changed alone and both), a per-label FlodymArray version or full-dimensional FlodymArrays, in-place edit of the "
+    "arrays that were handed to set_prms, compute, read sf, read pdf} for every (stock class/solver incl. the flow-driven "
+    "stock) x (lifetime class) x (unit and uneven time grid) x (extra dims: p with 2 items, none, p with a single item), from the blank state (nothing set) and the ready "
     "state (driver 0, parameters 0); and over {parameter := version, system.compute()} for systems built from "
     "definitions. State key = digest of EVERY array reachable from the stock object (public and private "
     "attributes alike, so caches are part of the state) + input versions. Non-trivial transition = a compute "
@@ -30,7 +31,7 @@ RULE = (
 )
 ASSUMPTIONS = [
     "finite input alphabets (3 driver versions, 5 parameter versions); depth bound 4-5 quick / 6-7 thorough",
-    "results compared with 1e-12 relative tolerance against a fresh object (same code, same inputs, no history)",
+    "results compared with 1e-12 relative tolerance against a fresh object (same code, no history) given the current driver and the lifetime parameters the model holds at that moment (read through the public prms property)",
     "changing parameters by assigning attributes directly (not through set_prms) is outside the statement",
 ]
 LEVEL_TEXT = (
@@ -41,7 +42,8 @@ LEVEL_TEXT = (
 LEVEL_NOTE = "Differential oracle (history vs fresh); exact state key over the object's full array content. Histories longer than the bound and inputs outside the alphabet are not covered."
 
 GRIDS = {"unit": (2000, 2001, 2002, 2003), "uneven": (2000, 2002, 2007, 2008)}
-EXTRA = [("p", 2)]
+EXTRA = [("p", 2)]  # default; units also run time-only dims and a single-item dimension (see EXTRAS)
+EXTRAS = {"p2": [("p", 2)], "none": [], "p1": [("p", 1)]}
 PRM_VERSIONS = {
     "NormalLifetime": [dict(mean=3.0, std=1.0), dict(mean=1.5, std=1.0), dict(mean=3.0, std=0.5), dict(mean=1.5, std=0.5)],
     "FoldedNormalLifetime": [dict(mean=3.0, std=1.0), dict(mean=1.5, std=1.0), dict(mean=3.0, std=2.0), dict(mean=1.5, std=2.0)],
@@ -49,14 +51,21 @@ PRM_VERSIONS = {
     "WeibullLifetime": [dict(weibull_shape=2.0, weibull_scale=3.0), dict(weibull_shape=1.2, weibull_scale=3.0), dict(weibull_shape=2.0, weibull_scale=1.5), dict(weibull_shape=1.2, weibull_scale=1.5)],
     "FixedLifetime": [dict(mean=2.5), dict(mean=1.5), dict(mean=0.7), dict(mean=3.5)],
 }
-DRV = {"inflow": ["pos", "mid0", "imp:1:1"], "stock": ["hump", "tail0", "inc"], "simple": ["pos", "mid0", "imp:1:1"]}
+DRV = {"inflow": ["pos", "mid0", "imp:1:0", "pos~"], "stock": ["hump", "tail0", "inc", "hump~"], "simple": ["pos", "mid0", "imp:1:0", "pos~"]}
+
+
+def drv_series(name, n, extra):
+    """a trailing ~ = the same driver changed by a relative 2**-24 (a finite-difference step)"""
+    if name.endswith("~"):
+        return {k: v * (1.0 + 2.0 ** -24) for k, v in dsm_impl.driver_series(name[:-1], n, extra).items()}
+    return dsm_impl.driver_series(name, n, extra)
 NAMES = ("stock", "inflow", "outflow")
 
 
 def ops_for(kind, dist):
-    ops = [dict(op="drv", v=k) for k in range(3)]
+    ops = [dict(op="drv", v=k) for k in range(4)]
     if kind != "simple":
-        ops += [dict(op="prm", v=k) for k in range(4)] + [dict(op="prm", v="A")]
+        ops += [dict(op="prm", v=k) for k in range(4)] + [dict(op="prm", v="A"), dict(op="prm", v="F"), dict(op="scribble-param")]
         ops += [dict(op="read", what="sf"), dict(op="read", what="pdf")]
     else:
         ops += [dict(op="drv2", v=k) for k in range(2)]
@@ -69,12 +78,16 @@ class St:
 
 
 def prm_kwargs(dist, v, dims):
-    if v == "A":  # per-label FlodymArray for the first parameter, scalar for the second
-        base = PRM_VERSIONS[dist][0]
+    if v in ("A", "F"):
+        # A: per-label (or per-cohort) FlodymArray for the first parameter, scalar for the second
+        # F: FlodymArrays over the model's full dims in the model's own order for every parameter
+        base = PRM_VERSIONS[dist][0 if v == "A" else 3]
         names = list(base)
-        kw = {names[0]: dsm_impl.make_param(dims, names[0], base, "p", EXTRA, dims[0].len)}
+        letters = [l for l, _ in EXTRA]
+        shape = (letters[0] if letters else "t") if v == "A" else "t" + "".join(letters)
+        kw = {names[0]: dsm_impl.make_param(dims, names[0], base, shape, EXTRA, dims[0].len)}
         for nm in names[1:]:
-            kw[nm] = base[nm]
+            kw[nm] = base[nm] if v == "A" else dsm_impl.make_param(dims, nm, base, shape, EXTRA, dims[0].len)
         return kw
     return dict(PRM_VERSIONS[dist][v])
 
@@ -88,7 +101,7 @@ def make_obj(kind, dist, grid, drv, prm, drv2=None):
     if kind == "simple":
         s = flodym.SimpleFlowDrivenStock(dims=dims)
         if drv is not None:
-            dsm_impl.fill(s.inflow, dsm_impl.driver_series(DRV["simple"][drv], n, EXTRA), EXTRA)
+            dsm_impl.fill(s.inflow, drv_series(DRV["simple"][drv], n, EXTRA), EXTRA)
         if drv2 is not None:
             dsm_impl.fill(s.outflow, dsm_impl.driver_series(("pos2", "inc")[drv2], n, EXTRA), EXTRA)
         return s
@@ -104,7 +117,7 @@ def make_obj(kind, dist, grid, drv, prm, drv2=None):
         which = s.stock
         key = "stock"
     if drv is not None:
-        dsm_impl.fill(which, dsm_impl.driver_series(DRV[key][drv], n, EXTRA), EXTRA)
+        dsm_impl.fill(which, drv_series(DRV[key][drv], n, EXTRA), EXTRA)
     return s
 
 
@@ -168,7 +181,7 @@ def apply_op(st, op, check):
     if op["op"] == "drv":
         key = "stock" if st.kind.startswith("stock") else "inflow"
         name = DRV["stock" if key == "stock" else ("simple" if st.kind == "simple" else "inflow")][op["v"]]
-        dsm_impl.fill(getattr(s, key), dsm_impl.driver_series(name, n, EXTRA), EXTRA)
+        dsm_impl.fill(getattr(s, key), drv_series(name, n, EXTRA), EXTRA)
         st.drv = op["v"]
         return "driver-set", None
     if op["op"] == "drv2":
@@ -176,11 +189,18 @@ def apply_op(st, op, check):
         st.drv2 = op["v"]
         return "driver-set", None
     if op["op"] == "prm":
-        stt, info = attempt(lambda: s.lifetime_model.set_prms(**prm_kwargs(st.dist, op["v"], s.dims)))
+        kw = prm_kwargs(st.dist, op["v"], s.dims)
+        stt, info = attempt(lambda: s.lifetime_model.set_prms(**kw))
         if stt == "raised":
             return fail("raised", f"set_prms raised {info}")
         st.prm = op["v"]
+        st.handed = [v for v in kw.values() if hasattr(v, "values")]
         return "prms-set", None
+    if op["op"] == "scribble-param":
+        # the user keeps working with the arrays that were handed to set_prms (in-place edit)
+        for a in getattr(st, "handed", []):
+            a.values[...] = a.values + 0.5
+        return "param-array-edited", None
     if op["op"] == "read":
         stt, info = attempt(lambda: getattr(s.lifetime_model, op["what"]))
         if st.prm is None:
@@ -193,7 +213,13 @@ def apply_op(st, op, check):
     stt, info = attempt(lambda: s.compute())
     if not check:
         return "computed", None
-    fresh = make_obj(st.kind, st.dist, st.grid, st.drv, st.prm, st.drv2)
+    # a freshly built stock with the same inputs: the current driver and the lifetime parameters the
+    # model HOLDS at this moment (read through the public `prms`)
+    fresh = make_obj(st.kind, st.dist, st.grid, st.drv, None, st.drv2)
+    if st.kind != "simple":
+        held = s.lifetime_model.prms
+        if all(v is not None for v in held.values()):
+            fresh.lifetime_model.set_prms(**{nm: np.array(v, dtype=float, copy=True) for nm, v in held.items()})
     stf, infof = attempt(lambda: fresh.compute())
     if stf == "raised":
         if stt != "raised":
@@ -266,7 +292,7 @@ def make_system(dist, grid, solver_kind):
 def sys_set(mfa, dist, solver_kind, drv, prm, grid):
     n = len(grid)
     key = "inflow" if solver_kind == "inflow" else "stock"
-    dsm_impl.fill(mfa.parameters["driver"], dsm_impl.driver_series(DRV[key][drv], n, EXTRA), EXTRA)
+    dsm_impl.fill(mfa.parameters["driver"], drv_series(DRV[key][drv], n, EXTRA), EXTRA)
     base = PRM_VERSIONS[dist][prm]
     for k, nm in enumerate(base):
         mfa.parameters[nm].values[...] = [base[nm], base[nm] + (0.25 if k == 0 else 0.125)]
@@ -342,13 +368,17 @@ def units(tier, seed):
         combos = KIND_DIST_Q
     else:
         combos = [(k, d) for k in dsm_impl.KINDS for d in PRM_VERSIONS] + [("simple", "-")]
-    for kind, dist in combos:
-        for gname in GRIDS:
+    for ci, (kind, dist) in enumerate(combos):
+        for gi, gname in enumerate(GRIDS):
             for start in ("ready", "blank"):
                 depth = (4 if start == "ready" else 5) if tier == "quick" else (6 if start == "ready" else 7)
                 if kind == "simple":
                     depth = min(depth, 5)
-                out.append(dict(mode="stock", kind=kind, dist=dist, grid=gname, start=start, depth=depth))
+                extras = list(EXTRAS) if tier == "thorough" else ["p2", ("none", "p1")[(ci + gi) % 2]]
+                for ex in extras:
+                    if ex != "p2" and start == "blank":
+                        continue
+                    out.append(dict(mode="stock", kind=kind, dist=dist, grid=gname, start=start, depth=depth if ex == "p2" else min(depth, 4), extra=ex))
     sys_combos = [("inflow", "NormalLifetime"), ("stock-lapack", "WeibullLifetime")] if tier == "quick" else [(k, d) for k in dsm_impl.KINDS for d in PRM_VERSIONS if d != "FixedLifetime"]
     for sk, dist in sys_combos:
         for gname in GRIDS:
@@ -357,6 +387,8 @@ def units(tier, seed):
 
 
 def run_unit(u):
+    global EXTRA
+    EXTRA = EXTRAS[u.get("extra", "p2")]
     grid = GRIDS[u["grid"]]
     if u["mode"] == "stock":
         ops = ops_for(u["kind"], u["dist"])
@@ -378,7 +410,9 @@ def _short(o):
 
 
 def replay(case):
+    global EXTRA
     u = case["unit"]
+    EXTRA = EXTRAS[u.get("extra", "p2")]
     grid = GRIDS[u["grid"]]
     if u["mode"] == "stock":
         st = build_state(u["kind"], u["dist"], grid, u["start"])
